@@ -166,7 +166,7 @@ func (g *gstate) applyOne(rng *rand.Rand) bool {
 
 func weights(profile string) map[string]int {
 	w := map[string]int{"write": 34, "read": 8, "snap": 12, "delete": 7, "invalid": 3, "revert": 3,
-		"reopen": 6, "reload": 2, "closeopen": 1, "resize": 2, "punch": 4, "apply": 12, "drop": 1, "mode": 2, "setrev": 1, "ckpt": 1, "markuser": 2}
+		"reopen": 6, "reload": 2, "closeopen": 1, "resize": 2, "punch": 4, "apply": 12, "drop": 1, "mode": 2, "setrev": 1, "ckpt": 1, "markuser": 2, "cw": 0}
 	switch profile {
 	case "io":
 		w["write"], w["read"], w["delete"], w["invalid"] = 50, 15, 4, 0
@@ -178,14 +178,16 @@ func weights(profile string) map[string]int {
 		w["invalid"], w["snap"], w["revert"], w["delete"], w["write"], w["ckpt"] = 15, 14, 8, 10, 15, 4
 	case "resize":
 		w["resize"], w["reopen"] = 12, 8
+	case "modes":
+		w["mode"], w["closeopen"], w["reopen"], w["invalid"], w["setrev"], w["delete"], w["write"] = 12, 8, 8, 8, 5, 6, 30
 	case "counter":
-		w["mode"], w["setrev"], w["write"], w["reopen"], w["closeopen"] = 10, 6, 40, 8, 4
+		w["mode"], w["setrev"], w["write"], w["reopen"], w["closeopen"], w["cw"] = 10, 6, 36, 8, 4, 8
 	}
 	return w
 }
 
 func pick(rng *rand.Rand, w map[string]int) string {
-	keys := []string{"write", "read", "snap", "delete", "invalid", "revert", "reopen", "reload", "closeopen", "resize", "punch", "apply", "drop", "mode", "setrev", "ckpt", "markuser"}
+	keys := []string{"write", "read", "snap", "delete", "invalid", "revert", "reopen", "reload", "closeopen", "resize", "punch", "apply", "drop", "mode", "setrev", "ckpt", "markuser", "cw"}
 	tot := 0
 	for _, k := range keys {
 		tot += w[k]
@@ -223,9 +225,24 @@ func generate(rng *rand.Rand, steps int, profile string) ([]string, []string, ma
 	}
 	for st := 0; st < steps; st++ {
 		if g.im.S.Replica() == nil {
+			if profile == "modes" && rng.Intn(2) == 0 {
+				// requests against a closed replica must all be refused and change nothing
+				g.tagN++
+				ops := []string{fmt.Sprintf("w 0 8 %d", g.tagN), "r 0 8", "snap zz u", "mark zz", "rm zz", "revert zz",
+					"reopen p", "reload n", "resize 64", "mode RW", "setrev 5", "ckpt zz", fmt.Sprintf("cw 8 %d", g.tagN)}
+				g.do(ops[rng.Intn(len(ops))])
+				g.do("meta")
+				g.feat["closed-request"] = true
+				continue
+			}
 			g.do(fmt.Sprintf("open %s", pn(rng)))
-			g.do("mode RW")
-			g.mode = "RW"
+			if profile == "modes" && rng.Intn(3) == 0 {
+				g.mode = "INIT"
+				g.feat["mode-INIT"] = true
+			} else {
+				g.do("mode RW")
+				g.mode = "RW"
+			}
 			g.observe(rng, pFull, pImg)
 			continue
 		}
@@ -255,7 +272,16 @@ func generate(rng *rand.Rand, steps int, profile string) ([]string, []string, ma
 			g.do(fmt.Sprintf("snap %s %s", name, ua))
 		case "delete":
 			if g.mode != "RW" {
-				continue
+				if profile == "modes" {
+					if ch := g.chain(); len(ch) > 0 {
+						n := ch[rng.Intn(len(ch))].name
+						g.do([]string{"mark " + n, "rm " + n, "setrev 9"}[rng.Intn(3)])
+						g.feat["rw-only-in-"+g.mode] = true
+					}
+				} else {
+					continue
+				}
+				break
 			}
 			ch := g.chain()
 			// index k (1-based) eligible: 2 <= k <= top-2 = len(ch)-1; parent not retained user-created
@@ -284,6 +310,10 @@ func generate(rng *rand.Rand, steps int, profile string) ([]string, []string, ma
 			}
 			g.do("rm " + name)
 			g.feat["delete"] = true
+		case "cw":
+			g.tagN++
+			g.do(fmt.Sprintf("cw %d %d", 100+rng.Intn(300), g.tagN))
+			g.feat["concurrent-writes"] = true
 		case "markuser":
 			// the user deletes a user-created snapshot: only marks it; the cleaner may take it later
 			if g.mode != "RW" {
@@ -337,8 +367,13 @@ func generate(rng *rand.Rand, steps int, profile string) ([]string, []string, ma
 			g.feat["revert"] = true
 		case "reopen":
 			g.do("reopen " + pn(rng))
-			g.do("mode RW")
-			g.mode = "RW"
+			if profile == "modes" && rng.Intn(3) == 0 {
+				g.mode = "INIT"
+				g.feat["mode-INIT"] = true
+			} else {
+				g.do("mode RW")
+				g.mode = "RW"
+			}
 			g.feat["reopen"] = true
 		case "reload":
 			g.do("reload " + pn(rng))
